@@ -73,6 +73,11 @@ def checkOne (acc : Acc) (kind : String) (ty : Target) (what : String) (claim : 
       ({ acc with c02 := "fail", c05 := "fail" }).note s!"C05/{slug why}/{kind}/{targetKind ty}"
         s!"{what}: the value has no exact representation in the target ({why}) but the read returned {impl.compress.take 300}"
     else { acc with tags := s!"must-fail:{slug why}" :: acc.tags }
+  | .error (.errCtx why _) =>
+    if icls == "ok" then
+      ({ acc with c02 := "fail", c05 := "fail" }).note s!"C05/{slug why}/{kind}/{targetKind ty}"
+        s!"{what}: the value has no exact representation in the target ({why}) but the read returned {impl.compress.take 300}"
+    else { acc with tags := s!"must-fail:{slug why}" :: acc.tags }
   | .error (.panic _) => acc
 
 def handle (j : Json) : Except String Verdict := do
